@@ -198,6 +198,13 @@ class CSSUnknownRule(cssrule.CSSRule):
                                 % self._valuestr(cssText))
 
             # set all
+            if wellformed and self.atkeyword and \
+               self.atkeyword != self._normalize(self._tokenvalue(attoken)):
+                wellformed = False
+                self._log.error('%s: Invalid atkeyword for this rule: %r' %
+                                (self.atkeyword, self._tokenvalue(attoken)),
+                                error=xml.dom.InvalidModificationErr)
+
             if wellformed:
                 self.atkeyword = self._tokenvalue(attoken)
                 self._setSeq(newseq)
